@@ -227,7 +227,8 @@ CHECKS["C09"] = {
               "capability (in-process, TLS-capable TCP) on one Server for every order of the configured lists: the offer equals configured ∩ supported, only an offered pair is confirmed (echoing the choice), anything else is answered with failed; after a confirmed "
               "tls every later byte in both directions is a TLS record, credentials never appear in cleartext, both callbacks (client authenticator, server Authenticate) run under the "
               "confirmed options, and both ends report the same options after establishment. (e) a pipelining peer: every authenticating symbol written in cleartext in the same write as the choice of tls, alone "
-              "and followed by each authenticating symbol sent under TLS: credentials that never travelled under TLS must not reach Authenticate."),
+              "and followed by each authenticating symbol sent under TLS: credentials that never travelled under TLS must not reach Authenticate. "
+              "Client side also: a confirmation that names a compression the TCP transport cannot apply (alone, or together with tls which it can): the client stops there - no credentials, no established session."),
     "note": "Real crypto/tls over the in-memory connection; wire observations come from the raw byte capture of both directions. WebSocket transports are not part of this check.",
     "technique": "exhaustive enumeration of configurations x client behaviours + rapid scripts, with invariants over captured wire bytes and callback-time transport state, in virtual time",
     "rule": ("scripts: 2 transports x 3 compression lists x 4 encryption lists x 2 entry points x scripts to depth 3/4; pairs: the same 24 configurations x 4 encryption selectors x 2 compression "
@@ -285,7 +286,8 @@ CHECKS["C12"] = {
               "Sends may be given up on their context (cancelled or timed out, per envelope) while the receiver stalls for seconds behind a pipe smaller than a frame, or be issued with a context that is already dead (refused: such an envelope must never arrive, also not with a later one); "
               "the receiver may ask with short deadlines and ask again (an envelope is lost only if the receiver kept asking). "
               "TLS cases draw the protocol version (1.3, or capped at 1.2); the sender may close its transport right after its last send (under TLS the close notification follows the data at once) - everything reported sent still arrives; "
-              "the receiver may run with a read limit just above the largest frame of the stream (it bounds one envelope, not the connection); a receiver that stays away for one to three write polls while the sender's context lives on."),
+              "the receiver may run with a read limit just above the largest frame of the stream (it bounds one envelope, not the connection); a receiver that stays away for one to three write polls while the sender's context lives on. "
+              "Under TLS (1.2 and 1.3) with a sender that closes after its last send, a transient read timeout is placed at each of the last 70 reads for fragment sizes 2-13 and 64 (crypto/tls can hand the last data over together with the timeout that interrupts the reading of the close notification)."),
     "note": "Short writes / write timeouts are not injected under TLS (crypto/tls makes any write error permanent, so no retry semantics apply there).",
     "technique": "fault enumeration (exhaustive split points / short-write lengths / cut offsets for small streams) + rapid fault plans, sent-vs-received sequence oracle, in virtual time",
     "rule": ("case = (stream, write fault plan on the sender's connection, read fault plan on the receiver's, global read chunk, coalescing, pipe capacity, TLS). Non-trivial: a fault fired or a frame "
@@ -307,7 +309,8 @@ CHECKS["C16"] = {
               "<= L; a frame > 2L is never returned; a frame <= L whose predecessors were accepted is returned intact. Frames in (L, 2L] may go either way. Refused frames (well-formed JSON that is no "
               "valid envelope: an unknown event, or members that add up to no kind) of every size up to L are interleaved: each must be answered with an error and costs later frames nothing. "
               "A frame of L/2 ... 10L also arrives in pieces (1, L/2, L-1, L, L+1 bytes, 1-24 of them, and drawn piece lists) while the receiver gives up on a 100 ms context between the pieces and asks again "
-              "(virtual time): whatever the transport does after a given-up receive, a frame > 2L is never returned, one Receive takes at most L bytes, and what is returned was sent."),
+              "(virtual time): whatever the transport does after a given-up receive, a frame > 2L is never returned, one Receive takes at most L bytes, and what is returned was sent. "
+              "The loopback listener cases run with and without a TLS configuration on the listener."),
     "note": "The unit is the frame (JSON text plus the encoder's newline). Bytes consumed are counted on the in-memory connection; not measured for the loopback listener cases.",
     "technique": "boundary-value enumeration + rapid streams with a per-call consumption counter on the injected connection",
     "rule": ("case = (limit, frame sizes, read chunk, coalesced?, via hook|listener). Non-trivial: a frame > L occurs, or >=2 coalesced frames; for the given-up cases: a frame > L and at least one receive that ended on its context with part of the frame taken. Distinct by SHA-1 of the case. Default 8 MiB limit only in the thorough tier."),
@@ -377,7 +380,8 @@ CHECKS["C05"] = {
               "Plus stalled-peer histories (tiny buffers, a peer that stops reading): requests whose send itself fails on its deadline, then reuse of those ids and late responses for them "
               "(enumerated in TestC05SendFails and drawn as a prefix in TestC05); once a failed write has ended the session the rest of the history is not judged. "
               "Steps also include a response racing with the cancellation of its request (either outcome, never a stuck goroutine) and two calls with one id started in the same instant "
-              "(exactly one owns the id and gets the response, the other is refused)."),
+              "(exactly one owns the id and gets the response, the other is refused). "
+              "A quarter of the drawn histories end with the peer hanging up under the calls still pending; a call that returns neither a response nor an error is a violation in every history."),
     "note": "Staging uses synctest.Wait after every step, so races between a response and a cancellation at the same instant are not generated (as in DESIGN.md).",
     "technique": "stateful model-based property testing (rapid) + exhaustive permutations against a pending-command table model, in virtual time",
     "rule": "case = (role, transport, step list). Non-trivial: >=2 calls in flight with a burst, or any response that matches no pending call (unknown / duplicate / late). Distinct by SHA-1 of the case.",
@@ -494,7 +498,8 @@ CHECKS["C19"] = {
               "in two stack dumps; real: process CPU time in an idle window), and every send that returned nil must appear in the byte capture of some connection. "
               "Storm (TestC19Storm): 2-16 goroutines send through one Client while the server ends the session (Close / FailSession / FinishSession) after every 1-4 messages, 5-120 times per case, "
               "over TCP and TCP+TLS in virtual time and the in-process transport in real time; afterwards the same recovery clauses, and no crash of the process. "
-              "Fault kinds also include session envelopes that have no place on an established session (an earlier state, or established once more)."),
+              "Fault kinds also include session envelopes that have no place on an established session (an earlier state, or established once more). "
+              "Fault kinds also: the server stops consuming (its handler waits) and the application sends with 300 ms deadlines until a send is given up half way."),
     "note": ("Byte-level faults need a byte stream, so the in-process transport only gets finish/fail/EOF. Real-socket cases run one at a time (CPU time is per process). "
              "The storm's interleavings are the Go scheduler's (GOMAXPROCS varied per shard): the nil-channel crash it found shows in about one of four shards of the quick tier."),
     "technique": "fault enumeration (fault kind x moment x repetition x transport) + rapid fault sequences with recovery / liveness oracles; virtual time with an external spin watchdog, plus real sockets",
